@@ -145,8 +145,10 @@ MemoWif == IF memo # <<>> /\ memo[1] = WifVersion(k.network) THEN memo ELSE WifP
 
 Choose == /\ phase = "key"
           /\ phase' = "chosen"
-          /\ fmt' \in {f \in (IF nops = 0 THEN Fmts \ {"bip38"} ELSE {"wif", "xprv", "xpub", "hex"}) : CanExport(k, f)}
-          /\ h' \in (IF nops > 0 THEN {NoHints, AllHints} ELSE IF k.network \in MCPlain THEN HintSets ELSE MCHints)
+          /\ fmt' \in {f \in (IF nops > 0 THEN {"wif", "xprv", "xpub", "hex"}
+                            ELSE (CoreFmts \ {"bip38"}) \cup (IF k.network \in MCPlain THEN ConvFmts ELSE {})) : CanExport(k, f)}
+          /\ h' \in (IF nops > 0 THEN {NoHints, AllHints}
+                     ELSE IF k.network \in MCPlain /\ ~(fmt' \in ConvFmts) THEN HintSets ELSE MCHints)
           /\ UNCHANGED <<k, repr, res, memo, nops>>
 
 DoExport == /\ phase = "chosen"
@@ -161,6 +163,15 @@ Next == DoOp \/ Choose \/ DoExport \/ DoImport
 Spec == Init /\ [][Next]_vars
 
 (* ---------------- invariants ---------------- *)
+\* every public key has both encodings, and they read back to the same point with the flag the encoding shows
+ConversionIdentity == (phase = "imported" /\ fmt \in ConvFmts) =>
+                         /\ res.ok /\ ~res.priv /\ res.x = k.x /\ res.y = k.y
+                         /\ res.comp = (fmt \in {"pubhex_c", "pubbytes_c"})
+\* a public-only object made by a route denotes the point of the key it was made from
+RoutesKeepPoint == phase = "key" =>
+                      \A rt \in {[r |-> "public", fmt |-> "", ep |-> ""]} \cup
+                                 {[r |-> "import", fmt |-> f, ep |-> e] : f \in {"pubhex_c", "pubbytes_u", "point", "xpub"}, e \in {"key", "hd"}} :
+                          LET o == Routed(k, rt) IN o.x = k.x /\ o.y = k.y /\ ~o.priv /\ o.secret = <<>>
 \* an export shows the key's current attributes only: what the object remembers from earlier calls never shows through
 \* (the memo is keyed by the version byte it was made for, and nothing else the WIF depends on can change)
 ExportIsCurrent == phase \in {"exported", "imported"} => repr = Export(k, fmt)
@@ -192,5 +203,9 @@ Lengths == phase \in {"exported", "imported"} =>
                 [] fmt = "hex" -> Len(repr.v) = 64
                 [] fmt = "hex01" -> Len(repr.v) = 66
                 [] fmt = "pubhex" -> Len(repr.v) = (IF k.compressed THEN 66 ELSE 130)
+                [] fmt = "pubhex_c" -> Len(repr.v) = 66
+                [] fmt = "pubhex_u" -> Len(repr.v) = 130
+                [] fmt = "pubbytes_c" -> Len(repr.v) = 33
+                [] fmt = "pubbytes_u" -> Len(repr.v) = 65
                 [] OTHER -> TRUE
 =============================================================================
